@@ -4,6 +4,8 @@ from props import authlib as A
 from props import c09 as C9
 from props import c10 as C10
 from props import txgen as TG
+import gen_hops as HG
+import hops_oracles as HO
 
 ID = "C08"
 MANIFEST = {
@@ -365,6 +367,9 @@ def suites(rng, tier):
         {"suite": "auth", "name": "signer-rule-fn", "lines": signer_rule_cases(rng, {"quick": 500, "thorough": 20000, "search": 2000}[tier]),
          "distribution": {"exhaustive_flag_words": 128, "signer_configs": 5}},
         oracle_substitution_suite(rng, {"quick": 1500, "thorough": 30000, "search": 6000}[tier]),
+        {"suite": "hops", "name": "tokenless-repay-role",
+         "lines": [HG.gen_tokenless_case(rng) for _ in range({"quick": 250, "thorough": 6000, "search": 2000}[tier])],
+         "distribution": {"note": "the risk admin's token-less repayment on sunset banks through the real repay handler: signer = risk admin / account authority / authority of another account; account in receivership or not; only the risk admin's repay_all may skip the token transfer"}},
         {"suite": "txval", "name": "receivership-bracket-shapes", "lines": TG.val_exhaustive(rng, "liq3", 4 if tier != "thorough" else 5),
          "distribution": {"alphabet": TG.ALPHABETS["liq3"], "note": "the 'strictly inside an active receivership' clause: transaction shapes with repeated / trailing-byte start and end instructions; a receivership that is not closed by its own end instruction lets any signer withdraw / repay afterwards"}},
     ]
@@ -474,6 +479,9 @@ def must_reject(k):
 
 
 def nontrivial(suite, case, impl):
+    if suite == "hops":
+        tr = HO.Trace(case, impl)
+        return tr.ok and any(op[0] == 4 and res == "OK" for op, res, *_ in HO.walk(tr))
     if suite == "txval":
         return C10.nontrivial(suite, case, impl)
     if suite == "oracle":
@@ -515,6 +523,8 @@ def oracle_substitution(case, impl):
 
 
 def oracle(suite, case, impl):
+    if suite == "hops":
+        return HO.oracle_tokenless_role(HO.Trace(case, impl))
     if suite == "oracle":
         return oracle_substitution(case, impl)
     if suite == "txval":
